@@ -58,6 +58,16 @@ RULE_DOC = {
     "C18-wrap": "public wrappers pass their storage-layer operation on every path, argument unchanged",
     "C20-taint": "caller-supplied sizes reach only checked / saturating arithmetic (no profile-dependent overflow)",
     "C11-append": "push_str / insert_str allocate only through reserve",
+    "C10-lenword": "length words round-trip and carry the marker in the last memory byte (this target's byte order)",
+    "C16-lenword": "length words round-trip and carry the marker in the last memory byte (this target's byte order)",
+    "C03-room": "reserve returns Ok only with capacity >= len + additional (what later writes rely on)",
+    "C19-text": "as_str() / len() (what the wrappers serialize) decode the stored text for every tag byte and length word",
+    "T1-tags": "tag bytes: writers, readers and the length decoding agree for every value",
+    "R1-stale": "no pointer into the text survives a call that may free or move the buffer",
+    "C05-errused": "no Result<_, ReserveError> is discarded",
+    "C05-ownalloc": "nothing outside the heap-buffer module allocates directly",
+    "C06-pair": "plain form = try form + the message panic",
+    "C09-wrap": "public wrappers pass their storage-layer operation on every path, argument unchanged",
     "FLOOR": "instance floor (fail closed)",
     "BUILD": "configuration builds",
     "unclassified": "construct the rule tables do not know",
@@ -72,6 +82,9 @@ def rules_C03(ctx):
     r_layout.rule_layout_agreement(ctx)
     r_layout.rule_slot_decision(ctx)
     r_layout.rule_null_checks(ctx)
+    # "no access outside the block": writes are sized by what reserve promised
+    r_layout.rule_reserve_post(ctx, rule="C03-room")
+    r_own.rule_stale_views(ctx)
     r_api.rule_ownership_primitives(ctx)
 
 
@@ -81,6 +94,7 @@ def rules_C04(ctx):
     ctx.take_ts(["R-contract.Modifiable", "R-contract.Unique", "R-contract.realloc", "R-contract.set_len", "R-contract.write"])
     # the free is ordered after every other owner's last access (acquire after the last decrement)
     ctx.take_ts(["R-contract.dealloc", "R-contract.released-last"])
+    r_own.rule_stale_views(ctx)
     r_api.rule_send_sync(ctx)
     r_api.rule_atomics_syntactic(ctx)
     r_api.rule_witnesses(ctx)
@@ -91,6 +105,10 @@ def rules_C05(ctx):
     r_own.rule_U1(ctx, include_panic=True, rule="U1P")
     r_layout.rule_null_checks(ctx)
     r_api.rule_pairing(ctx)
+    # every allocation the crate makes can be refused and reported: nothing allocates through
+    # String / Vec / Box (which abort) outside the heap-buffer module
+    r_reach.rule_C09_no_other_alloc(ctx, rule="C05-ownalloc")
+    r_api.rule_errors_not_dropped(ctx)
 
 
 def rules_C02(ctx):
@@ -122,6 +140,8 @@ def rules_C11(ctx):
     r_shrink.rule_realloc_lands(ctx, rule="C11-lands")
     # within capacity nothing allocates: the appends reach the allocator only through reserve
     r_growth.rule_growth_via_reserve(ctx, rule="C11-append")
+    # "owns its storage exclusively" is judged from the reference count: it has to equal the number of handles
+    ctx.take_ts(["R2", "R3", "P1", "DUP"])
     # the public reserve / with_capacity / appends reach the storage layer's operation on every path
     r_api.rule_wrappers_delegate(ctx, rule="C11-wrap", only=("try_reserve", "try_with_capacity", "try_push_str", "try_push", "try_insert_str", "try_insert"))
 
@@ -137,6 +157,7 @@ def rules_C18(ctx):
 
 def rules_C01(ctx):
     r_text.rule_T1(ctx)
+    r_text.rule_len_words(ctx)
     ctx.take_ts(["R-contract.kind="])
     # writes go only to exclusively owned storage: otherwise an edit of one handle changes what the
     # handles sharing its buffer read back
@@ -163,6 +184,8 @@ def rules_C06(ctx):
     r_layout.rule_reserve_post(ctx)
     ctx.take_ts(["R-erratomic", "R2"])
     r_layout.rule_null_checks(ctx)
+    # a refused size is an Err / the documented panic message - never an abort or another panic
+    r_api.rule_pairing(ctx, rule="C06-pair")
 
 
 def rules_C07(ctx):
@@ -200,6 +223,8 @@ def rules_C16(ctx):
     r_size.rule_checked_ctors(ctx)
     # from_utf16_lossy collects through FromIterator<char>: every decoded char is appended
     r_retain.rule_items_appended(ctx)
+    r_text.rule_len_words(ctx, rule="C16-lenword")
+    r_text.rule_T4(ctx)
 
 
 def rules_C17(ctx):
@@ -208,12 +233,15 @@ def rules_C17(ctx):
 
 def rules_C19(ctx):
     r_deleg.rule_C19(ctx)
+    # the wrappers hand `as_str()` / `len()` to the format: what those return is the stored text
+    r_text.rule_T1(ctx, rule="C19-text")
     r_config.rule_cargo_features(ctx)
 
 
 def rules_C20(ctx):
     r_text.rule_niche(ctx)
     r_text.rule_T1(ctx)
+    r_text.rule_len_words(ctx)
     r_text.rule_T5(ctx)
     r_config.rule_debug_regions(ctx)
     r_config.rule_unchecked_sites(ctx)
@@ -229,13 +257,14 @@ def rules_C08(ctx):
     r_num.rule_dispatch(ctx, want=["LeanString"])
     ctx.take_ts(["P1", "DUP"])
     # dropping one copy leaves the other intact: only the last owner frees, after an acquire
-    ctx.take_ts(["P3", "P5", "R-contract.dealloc", "R-contract.released-last"])
+    ctx.take_ts(["P3", "P5", "R-contract.dealloc", "R-contract.released-last", "R1", "R2", "R3"])
 
 
 def rules_C09(ctx):
     r_reach.rules_C09(ctx)
     # the amount handed to reserve is the real growth (an inflated amount spills inline text to the heap)
     r_growth.rule_reserve_amount(ctx)
+    r_api.rule_wrappers_delegate(ctx, rule="C09-wrap", only=("try_push", "try_push_str", "try_insert", "try_insert_str", "try_with_capacity", "try_reserve"))
     r_layout.rule_capacity_roots(ctx)
     # integers: the requested capacity is exactly the digit count (C14 proves digit count = text length)
     r_num.rule_into_repr(ctx)
@@ -246,6 +275,8 @@ def rules_C10(ctx):
     # two handles borrowing the same static text can differ in length: assigning one to the other
     # takes the source's (pointer, length) pair on every path
     r_reach.rule_clone_replaces(ctx, rule="C10-clone")
+    # the borrowed length survives truncate / pop / clear on every byte order
+    r_text.rule_len_words(ctx, rule="C10-lenword")
     # the first growing operation moves a static handle to storage that really has the room
     r_layout.rule_reserve_post(ctx)
 
@@ -287,7 +318,9 @@ PROPS = {
             "explanation": "Every impl of PartialEq/Eq/PartialOrd/Ord/Hash/Display/Debug/Deref/AsRef/Borrow involving LeanString (enumerated from the compiler's impl table, incl. feature-gated AsRef<OsStr>) has a single-expression body that delegates to the same method of str on as_str() of each LeanString argument and nothing else (no field projection, pointer or capacity comparison, no second return path); partial_cmp = Some(cmp); PartialEq exists in both directions for str, &str, String, Cow<str>; Eq/Ord/Hash/Borrow<str> present; no derived structural impl; as_str/as_bytes/len/is_empty are the Repr views."},
     "C19": {"rules": rules_C19, "level": "other",
             "explanation": "With the features on (all-features configuration): Serialize = <str as Serialize>::serialize(as_str(self), s); Deserialize = deserialize_string(visitor); the visitor has visit_str / visit_borrowed_str (LeanString::from(v)) and visit_bytes / visit_borrowed_bytes (core::str::from_utf8(v): Ok -> from(s), Err -> invalid_value(Unexpected::Bytes(v))), no unchecked/lossy call; Arbitrary::{arbitrary, arbitrary_take_rest, size_hint} = the <&str as Arbitrary> method of the same name (.map(LeanString::from)). With the features off the impls are absent; Cargo.toml keeps both dependencies optional."},
-    "C20": {"rules": rules_C20, "cross": r_config.cross_C20, "level": "other",
+    # each optional feature also builds on its own, without `std` (quick tier too: a `use std::..` in a
+    # feature module only fails there)
+    "C20": {"rules": rules_C20, "cross": r_config.cross_C20, "level": "other", "quick_extra": ("x86_64/serde/debug", "x86_64/arbitrary/debug"),
             "explanation": "Per target (compiler layout tables): LeanString, Repr and Option of both are two words, word aligned, with the niche at the last byte and valid range 0..=StaticMarker; LastByte discriminants are exactly 0..=StaticMarker and every byte the crate can store in the last position (UTF-8 finals < 0xC0, 0xC0|len for len < MAX_INLINE_SIZE by the T5 guard, the two markers by T1) is a valid one - checked for all 256 values, so Some(s) never aliases None. Configurations: every configuration of the tier must build (thorough: 5 feature sets x debug on/off, and --no-default-features on i686 / powerpc64 / powerpc with -Zbuild-std=core,alloc, i.e. against a sysroot without std); core bodies have identical MIR across feature sets; debug on/off bodies are identical outside debug-only regions, which contain only shared-reference reads and panics; every *_unchecked / unreachable_unchecked site is in the audited table and each unreachable_unchecked sits on the Err arm of the expected fallible call next to a debug-only panic twin."},
     "C18": {"rules": rules_C18, "level": "other",
             "explanation": "Maybe-initialised dataflow: in every body that contains a user-code edge (unresolved trait call on a type parameter, callback-taking library call, drop of a generic value), no local of a heap-capable type without drop glue (Repr, HeapBuffer) is initialised across that edge; accumulators must be LeanString (drop glue) or &mut self. U2: a user-code edge taken while a mutable view of the string is live (retain's predicate) has a guard object dropped on its unwind path whose Drop calls Repr::set_len on every path, with a length field advanced only after the bytes were written."},
